@@ -43,8 +43,8 @@ def default_doc():
         # events per difficulty: (measure, pos Fraction, channel, kind, value) ; kind: n0 note, n2 head, n3 tail, b tempo
         ev=[
             [(0, F(0), 2, "n0", None), (3, F(1, 2), 5, "n0", None)],
-            [(1, F(1, 2), 3, "n0", None)],
-            [(0, F(0), 8, "n0", None), (2, F(1, 4), 8, "n0", None)],
+            [(1, F(1, 2), 3, "n0", None), (2, F(0), 2, "n2", None), (2, F(1, 2), 2, "n3", None)],
+            [(0, F(0), 8, "n0", None), (2, F(1, 4), 8, "n0", None), (1, F(0), 5, "n2", None), (3, F(1, 4), 5, "n3", None)],
         ],
         slots=None,
         order="sorted",
